@@ -1,9 +1,88 @@
 import SoundeventModel.Ops.Common
+import SoundeventModel.Audio
 namespace SE.Ops.C15
-open Lean SE
+open Lean SE SE.Audio
 
-def handle (op : String) (_a : Json) : Except String Json := do
+/-- the WAV file the harness wrote, either explicitly (`"frames"`) or as the ramp
+    `frame i, channel c = ((i·ch + c)·a + b) mod m − m/2` (PCM_16 codes) -/
+def getFile (j : Json) : Except String (List Frame × Nat) := do
+  let ch ← fldNat j "ch"
+  match fldOpt j "frames" with
+  | some fr =>
+    let rows ← (← getArr fr).mapM fun r => do (← getArr r).mapM (·.getInt?)
+    return (rows, ch)
+  | none =>
+    let n ← fldNat j "n"
+    let a ← fldInt j "a"
+    let b ← fldInt j "b"
+    let m ← fldInt j "m"
+    if m ≤ 0 then throw "file: modulus must be positive"
+    let rows := (List.range n).map fun i =>
+      (List.range ch).map fun c => (((i * ch + c : Nat) : Int) * a + b) % m - m / 2
+    return (rows, ch)
+
+def errJ (e : AErr) : Json := Json.mkObj [("raise", Json.str e.name)]
+
+def framesJ (fs : List Frame) : Json := arrJ (fs.map fun f => arrJ (f.map intJ))
+
+def timeArrayJ (a : TimeArray) : Json :=
+  valJ (Json.mkObj [("frames", framesJ a.frames), ("times", ratsJ a.times), ("step", ratJ a.step)])
+
+def axisJ (a : Axis) : Json := Json.mkObj [("coords", ratsJ a.coords), ("step", ratJ a.step)]
+
+def specJ (r : SpecAxes) (len : Nat) : Json :=
+  Json.mkObj [("nperseg", intJ r.nperseg), ("noverlap", intJ r.noverlap), ("len", natJ len),
+    ("time", axisJ r.time), ("freq", axisJ r.freq)]
+
+def handle (op : String) (a : Json) : Except String Json := do
   match op with
+  | "load_clip" =>
+    let (file, ch) ← getFile (← fld a "file")
+    let sr ← fldNat a "sr"
+    match loadClip file ch sr (← fldRat a "s") (← fldRat a "e") with
+    | .ok r => return timeArrayJ r
+    | .error e => return errJ e
+  | "load_recording" =>
+    let (file, _) ← getFile (← fld a "file")
+    match loadRecording file (← fldNat a "sr") (← fldRat a "duration") with
+    | .ok r => return timeArrayJ r
+    | .error e => return errJ e
+  | "recording_of" =>
+    let (sr, d) := recordingOf (← fldNat a "n") (← fldNat a "fsr") (← fldRat a "te")
+    return valJ (Json.mkObj [("sr", natJ sr), ("duration", ratJ d)])
+  | "resample" =>
+    match resampleAxis (← fldNat a "n") (← fldRat a "t0") (← fldRat a "t1") (← fldRat a "step")
+        (← fldNat a "target") with
+    | .ok r => return valJ (axisJ r)
+    | .error e => return errJ e
+  | "spectrogram" =>
+    match stftAxes (← fldNat a "len") (← fldRat a "t0") (← fldRat a "step") (← fldRat a "w")
+        (← fldRat a "h") with
+    | .ok r => return valJ (specJ r (← fldNat a "len"))
+    | .error e => return errJ e
+  | "clip_spectrogram" =>
+    -- the pipeline `compute_spectrogram(load_clip(clip), w, h)`
+    let (file, ch) ← getFile (← fld a "file")
+    let sr ← fldNat a "sr"
+    match loadClip file ch sr (← fldRat a "s") (← fldRat a "e") with
+    | .error e => return errJ e
+    | .ok c =>
+      match stftAxes c.frames.length (c.times.headD 0) c.step (← fldRat a "w") (← fldRat a "h") with
+      | .ok r => return valJ (specJ r c.frames.length)
+      | .error e => return errJ e
+  | "clip_resample" =>
+    -- the pipeline `resample(load_clip(clip), target)`
+    let (file, ch) ← getFile (← fld a "file")
+    let sr ← fldNat a "sr"
+    match loadClip file ch sr (← fldRat a "s") (← fldRat a "e") with
+    | .error e => return errJ e
+    | .ok c =>
+      match resampleAxis c.times.length (c.times.headD 0) (c.times.getD 1 0) c.step (← fldNat a "target") with
+      | .ok r => return valJ (axisJ r)
+      | .error e => return errJ e
+  | "holds_axis" =>
+    let ax : Axis := ⟨← getRatList (← fld a "coords"), ← fldRat a "step"⟩
+    return boolJ (axisOk (← fldRat a "first") ax)
   | _ => .error s!"C15: unknown op {op}"
 
 end SE.Ops.C15
